@@ -51,7 +51,7 @@ def spend_cases(draw):
     typ = draw(st.sampled_from(S.TYPES))
     ninputs = 1 if typ.startswith('p2tr') and draw(st.integers(0, 3)) else None
     decoy = draw(st.integers(0, 4)) == 0
-    c = S.build(rnd, typ, ninputs=ninputs, same_fund_decoy=decoy)
+    c = S.build(rnd, typ, ninputs=ninputs, same_fund_decoy=decoy, allow_invalid=True)
     corr = S.corrupt(c, draw(st.sampled_from(S.CORR)), rnd)
     # flag modifications: consistent sets only; the three activation flags form their own class
     flags = STD
@@ -197,6 +197,18 @@ def check_spend(case, ctx):
     ref_valid = ref_err is None
     tree_valid = tv is None
     if ref_valid == tree_valid:
+        return
+    # the property is about the supported output types. A witness program of a future kind (version 2..16, or version 1 with a program that is
+    # not 32 bytes) - reachable here only through the scriptPubKey-shape corruption - is none of them: validation lets anyone spend it when the
+    # DISCOURAGE flag is off, the debugger declines it with 'declared version=... not supported' / 'expected 22 or 34 byte script'. Declining at
+    # set-up is accepted; a session that is set up and runs is still compared.
+    wp = V.witness_program(out['spk'])
+    if wp is None and V.is_p2sh(out['spk']):
+        ops = R.decode(vin['script'])
+        if ops and ops[-1] is not None and ops[-1][1] is not None:
+            wp = V.witness_program(ops[-1][1])
+    if wp is not None and (wp[0] >= 2 or (wp[0] == 1 and len(wp[1]) != 32)) and tv and tv.startswith('refused:configure'):
+        ctx.count('unsupported-witness-program-declined')
         return
     # ---- disagreement: known classes (narrow signatures), else violation
     sig = classify(case, c, r, ref_err, tv, exp_idx)
